@@ -21,7 +21,10 @@ import os
 import shutil
 from fractions import Fraction
 
-from ..core import Op
+import traceback
+
+from ..core import Op, canon_exc, InfraError, jkey
+from .. import history
 from ..rat import rat, frac, tol_eq, round_once_eq
 from .. import leanio
 
@@ -43,7 +46,12 @@ THEOREMS = [_T + n for n in [
     # fix C15-3 (nperseg clamped to the audio): the spectrogram theorems hold for every window length; the traced
     # (rational) form of the plan is the model's plan; the pre-repair (un-clamped) behaviour, clearly named
     "C15_stft_long_window", "C15_stft_plan_tuple",
-    "C15_stft_unclamped_factors", "C15_stft_unclamped_long_window", "C15_stft_unclamped_long_window_untruthful"]]
+    "C15_stft_unclamped_factors", "C15_stft_unclamped_long_window", "C15_stft_unclamped_long_window_untruthful",
+    # follow-up (histories and construction paths): options of compute_spectrogram, positional calls, sessions
+    "C15_stft_options_default", "C15_stft_options_truthful", "C15_stft_options_same_steps",
+    "C15_positional_binding", "C15_signatures_wellformed",
+    "C15_session_length", "C15_session_prefix", "C15_session_step", "C15_session_look",
+    "C15_loaded_exact", "C15_resample_exact_iff", "C15_session_truthful"]]
 LEVEL_TEXT = ("Lean theorems over the integer/rational model of load_clip, load_recording, resample and "
               "compute_spectrogram: a clip has exactly floor(duration x samplerate) frames, frame i is file frame "
               "floor(start x samplerate)+i (zero past the end) at time (offset+i)/samplerate and equals that frame and "
@@ -63,28 +71,75 @@ LEVEL_TEXT = ("Lean theorems over the integer/rational model of load_clip, load_
               "rational inputs by symbolic traces of the real load_clip, load_recording, create_time_range, "
               "create_range_dim, resample and compute_spectrogram regenerated and proved on every run (Tie 1b), the "
               "composition by differential runs on real WAV files and by the theorem-backed monitor `axisOk` evaluated "
-              "on the implementation's own coordinates.")
+              "on the implementation's own coordinates. Follow-up (histories and construction paths): the options of "
+              "compute_spectrogram are modelled (padded / boundary change only the number of segments and, without a "
+              "boundary extension, the first centre; both axes are exactly first + k x step, the steps / window / overlap / "
+              "frequency axis are those of the default call - C15_stft_options_default / _truthful / _same_steps); "
+              "positional calls bind as the documented signature table says (C15_positional_binding, "
+              "C15_signatures_wellformed; the table is tied to inspect.signature of the current source on every run); "
+              "sessions - arrays derived from one another in one process - have a Lean semantics (runSession): every "
+              "step is the base operation's model on the value its source had when it was produced, later steps never "
+              "change earlier values (C15_session_step, _prefix, _look, _length), and in every session in which resample "
+              "is applied only to arrays whose spacing is their advertised step (arrays from a file always are, "
+              "C15_loaded_exact; resampled ones iff nothing was truncated, C15_resample_exact_iff) every array produced - "
+              "loaded, resampled, sliced, looked at again, both axes of every spectrogram for every padded / boundary - "
+              "is truthful (C15_session_truthful).")
 LEVEL_NOTE = ("Unmodelled: soundfile I/O, scipy's STFT / resample numerics, numpy `arange` in floats (their contracts - "
               "seek+read with zero fill, segment count and times of stft, `t0 + dt*n/num*k` of resample - are formulas of "
               "the model and are compared on every run); binary64 rounding in front of `int()`/`floor` (inputs whose "
               "float products may fall into another integer cell than the exact ones are only monitored). The symbolic "
               "ties hold in ordered-field semantics (no rounding) and replace soundfile, np.arange, scipy.signal and "
-              "xarray constructors by recorders; the library part is tied by generator-bounded correspondence.")
+              "xarray constructors by recorders; the library part is tied by generator-bounded correspondence. "
+              "Histories are generator-bounded too: the Lean session semantics says what every array of a session must "
+              "be and that it never changes; that the code has no state between calls (caches, memos on Clip / array "
+              "objects, options kept in module state, arguments written to, results sharing buffers) is observed on "
+              "generated sessions / call sequences (every array handed out earlier is looked at again after every later "
+              "call: values, coordinates, attrs of the array and of its coordinates) and, for the four functions' own "
+              "statements, by the symbolic traces (which also check that the traced function wrote nothing into its "
+              "argument). Slices / copies are xarray's (`isel`, `copy`), modelled as the corresponding part of the axis. "
+              "Numeric argument types (int, float, numpy float64 / float32 / int64 / int32) and construction paths "
+              "(constructor, model_validate, JSON, model_copy, assignment) are exercised, not modelled: the model sees "
+              "the value.")
 TECHNIQUE = ("Lean 4 proof over model; symbolic traces of the audio functions' own arithmetic (floor / int / arange count "
-             "symbolic) proved equal to the model's plans for all inputs on every run; differential correspondence on "
-             "real WAV files (exact / round-once / tolerance); theorem-backed axis monitor on implementation output")
+             "symbolic) proved equal to the model's plans for all inputs on every run; signature table tied to "
+             "inspect.signature (Tie 1); differential correspondence on real WAV files (exact / round-once / tolerance) "
+             "for single calls, call sequences on shared objects and sessions of derived arrays judged by the Lean "
+             "session model; theorem-backed axis monitor on implementation output")
 RULE = ("clips x files (1-3 channels, 15 file rates incl. odd and power-of-two ones, expansion 1/2/10) on and off sample "
         "boundaries, past the end of file, zero length; exhaustive small scope; recordings; spectrogram and resample "
         "pipelines with whole and fractional numbers of samples, windows shorter than, as long as and longer than the "
-        "audio (exhaustive small scope around the clamp); non-trivial = the implementation returned an array "
-        "with at least one frame / coordinate; distinct = distinct (operation, input)")
+        "audio (exhaustive small scope around the clamp); recordings built directly whose expansion factor does not "
+        "divide the samplerate (44100/8, 22050/20, 96000/7, 48000/7, 8000/3, 16384/3; header = floor(samplerate/factor)); "
+        "tolerance-sized offsets (2^-10 .. 2^-40 of a sample) around floor(start x samplerate), floor(duration x "
+        "samplerate), the two int() of compute_spectrogram, scipy's noverlap >= nperseg and the trailing-point rule of "
+        "create_range_dim, at small and large offsets (20 000-frame files); sizes 15-17, 255-257, 1023-1025, 4095-4097; "
+        "every lattice point of non-dyadic axes (clip starts on every 0.01 s / 0.001 s, every hop 0.0001 .. 0.01 s, every "
+        "input length 2 .. 300 of 44100 -> 16000); options of compute_spectrogram (padded x boundary x window x detrend, "
+        "pairwise) x window shorter / as long as / longer than the audio x whole / fractional hops; every public function "
+        "called by keyword, positionally in the documented order and mixed; numbers as int / float / numpy float64 / "
+        "float32 / int64 / int32; Clip / Recording from the constructor, model_validate, JSON, model_copy(update), "
+        "assignment; audio_dir as str / Path; arrays with coordinates registered in another order, transposed and "
+        "one-dimensional arrays (resample); histories: load_clip call sequences on shared / changed / copied Clip objects "
+        "with results edited by the caller and re-read after later calls (harness/history.py), sessions of derived arrays "
+        "(load -> spectrogram -> look again -> resample -> resample -> spectrogram, options followed by plain calls, a "
+        "result edited then the same call again, slices, copies; skeletons + random derivation graphs), every array "
+        "produced judged by the Lean session model and re-read after every later call; non-trivial = the implementation "
+        "returned an array with at least one frame / coordinate (a session: at least one step did); distinct = distinct "
+        "(operation, input)")
 TRUSTED = ["soundfile / libsndfile: `seek` + `read(frames, always_2d, fill_value=0)`; PCM_16 codes read back as code/32768",
            "scipy.signal.stft (segment count, `arange(nperseg/2, ...)/fs - (nperseg/2)/fs`, rfftfreq) and "
            "scipy.signal.resample (`t[0] + (t[1]-t[0]) * n/num * arange(num)`): formulas restated in the model, compared each run",
            "xarray: a coordinate whose length differs from the data raises ValueError",
            "Recording.from_file: samplerate = int(file rate x expansion), duration = frames / file rate / expansion (monitored contract)",
            "fix C16-1 (guard for an empty range in create_range_dim) is assumed present: a zero-length clip loads as an empty array",
-           "scipy.signal.stft raises ValueError for noverlap >= nperseg (also for the window shortened to the audio): both sides raise"]
+           "scipy.signal.stft raises ValueError for noverlap >= nperseg (also for the window shortened to the audio): both sides raise",
+           "scipy.signal.stft with padded=False / boundary in (even, odd, constant, None): segment count "
+           "(len [+ 2 (nperseg//2)] [+ padding] - noverlap) // (nperseg - noverlap), first centre nperseg/2 samples after "
+           "the start when there is no boundary extension (formulas of the model, compared each run)",
+           "xarray: `isel(time=slice(a, b))` keeps that part of the coordinate and its attrs; `copy(deep=True)` copies; "
+           "DataArray / Variable constructors copy the attrs dict they are given",
+           "pydantic: Clip / Recording accept int, numpy scalars for float fields; model_validate / model_validate_json / "
+           "model_copy give equal objects"]
 ASSUMPTIONS = ["binary64 arithmetic is exact on the grids used (dyadic times with <= 24 fractional bits, integer rates < 2^22)",
                "float-safety classification `_same_cell`: model applied only where float and exact products share an integer cell",
                "truthfulness theorems of resample assume an input whose spacing is its advertised step (`hdt`); outside it "
@@ -94,7 +149,17 @@ ASSUMPTIONS = ["binary64 arithmetic is exact on the grids used (dyadic times wit
 NOT_COMPARED = ["spectrogram / resampled sample values (scipy numerics; the property pins the axes)",
                 "error messages; which exception a failed seek raises (any exception <-> model `seek`)",
                 "frame count / offsets on float-unsafe inputs (only the monitor runs there)",
-                "array attrs `window_size`, `hop_size` (they record the request, not an axis)"]
+                "array attrs `window_size`, `hop_size` (they record the request, not an axis)",
+                "which attrs an array carries besides the `step` of its coordinates (only that an array handed out "
+                "earlier still has the attrs it was produced with)",
+                "the first time coordinate of a spectrogram computed with boundary=None beyond: it lies inside the first "
+                "window and the axis is first + k x step (the model's value nperseg/2 samples after the start is compared "
+                "where the rational model applies)",
+                "the monitor's verdict on a resampled array whose *source's* spacing is not its advertised step, inside "
+                "sessions (known finding C15-2, judged by the operation resample_chain; the coordinates are still "
+                "compared with the model)",
+                "the trailing-point rule of create_range_dim for stored durations that contradict the file (model "
+                "`shape` error vs array: left to the monitor)"]
 
 WAV_DIR = None
 
@@ -157,40 +222,111 @@ def _write_file(fd, fsr):
     return key, _FILES[key][0]
 
 
+def _header_rate(inp):
+    """rate written into the WAV header"""
+    return inp["fsr"]
+
+
+def _num(x, how="float"):
+    """the number `x` (a Fraction) as the caller hands it over: Python float (default), int when it is whole,
+    numpy float64 / float32 (float32 only when exact), numpy int64 when whole"""
+    import numpy as np
+    x = Fraction(x)
+    f = float(x)
+    if how == "int" and x.denominator == 1:
+        return int(x)
+    if how == "np64":
+        return np.float64(f)
+    if how == "np32" and Fraction(float(np.float32(f))) == x:
+        return np.float32(f)
+    if how == "npint" and x.denominator == 1:
+        return np.int64(int(x))
+    return f
+
+
+def _via(obj, how):
+    """the same pydantic object reached through another construction path"""
+    if how == "validate":
+        return type(obj).model_validate(obj.model_dump())
+    if how == "json":
+        return type(obj).model_validate_json(obj.model_dump_json())
+    if how == "copy":
+        return obj.model_copy(deep=True)
+    return obj
+
+
 def _recording(inp):
+    """the Recording of a case.  Default: `Recording.from_file` (samplerate = int(header rate x expansion)).
+    With `"rsr"`: built directly with the recording's own samplerate `rsr`, the file header carrying
+    `fsr = floor(rsr / te)` as recorders of time-expanded audio write it - the expansion factor need not divide
+    the samplerate (44100 / 8 -> header 5512), so `int(header x te) != samplerate`."""
     from soundevent import data
     fsr = inp["fsr"]
     te = frac(inp.get("te", "1"))
     key, path = _write_file(inp["file"], fsr)
-    k = (key, te)
+    k = (key, te, inp.get("rsr"))
     if k not in _RECS:
         tef = int(te) if te.denominator == 1 else float(te)
-        _RECS[k] = data.Recording.from_file(path, time_expansion=tef, compute_hash=False)
+        if "rsr" in inp:
+            n = _nframes(inp["file"])
+            _RECS[k] = data.Recording(path=path, samplerate=inp["rsr"], duration=n / inp["rsr"],
+                                      channels=inp["file"]["ch"], time_expansion=tef)
+        else:
+            _RECS[k] = data.Recording.from_file(path, time_expansion=tef, compute_hash=False)
     return k, _RECS[k]
 
 
+def _nframes(fd):
+    return len(fd["frames"]) if "frames" in fd else fd["n"]
+
+
+def _clip_of(rec, inp):
+    """the Clip of a case: numbers as `inp["num"]` says, object reached through `inp["via"]`"""
+    from soundevent import data
+    num, via = inp.get("num", "float"), inp.get("via", "ctor")
+    s, e = _num(frac(inp["s"]), num), _num(frac(inp["e"]), num)
+    if via == "copy_update":
+        # a clip that had other bounds before: nothing remembered from them may survive
+        clip = data.Clip(recording=rec, start_time=0.0, end_time=max(float(e), 1.0))
+        return clip.model_copy(update={"start_time": float(s), "end_time": float(e)})
+    if via == "assign":
+        clip = data.Clip(recording=rec, start_time=0.0, end_time=max(float(e), 1.0))
+        clip.start_time, clip.end_time = float(s), float(e)
+        return clip
+    return _via(data.Clip(recording=rec, start_time=s, end_time=e), via)
+
+
 def _relocated(rec, inp):
-    """`"ad": true`: the recording carries a relative path, the directory is passed as `audio_dir`"""
+    """`"ad": true`: the recording carries a relative path, the directory is passed as `audio_dir`
+    (a `str`, or a `pathlib.Path` with `"ad": "path"`)"""
     if not inp.get("ad"):
         return rec, {}
     from pathlib import Path
     full = str(rec.path)
-    return rec.model_copy(update={"path": Path(os.path.basename(full))}), {"audio_dir": os.path.dirname(full)}
+    d = os.path.dirname(full)
+    return rec.model_copy(update={"path": Path(os.path.basename(full))}), {"audio_dir": Path(d) if inp["ad"] == "path" else d}
 
 
 def _sr(inp):
-    """the recording's own samplerate `int(file rate x expansion)`"""
+    """the recording's own samplerate: `int(file rate x expansion)` (`Recording.from_file`) or the one the
+    recording was built with (`"rsr"`)"""
+    if "rsr" in inp:
+        return inp["rsr"]
     return int(Fraction(inp["fsr"]) * frac(inp.get("te", "1")))
 
 
 def _codes_out(arr):
     """float samples -> PCM codes (ints) when exact, else the exact rational of sample*32768"""
+    import numpy as np
+    x = np.asarray(arr, dtype=float) * 32768.0
+    if x.ndim == 2 and np.all(np.isfinite(x)) and np.array_equal(np.rint(x), x):
+        return x.astype(np.int64).tolist()
     out = []
     for row in arr:
         r = []
         for v in row:
-            x = float(v) * 32768.0
-            r.append(int(x) if x.is_integer() else rat(x))
+            y = float(v) * 32768.0
+            r.append(int(y) if y.is_integer() else rat(y))
         out.append(r)
     return out
 
@@ -221,9 +357,12 @@ def _sr_roundtrips(sr):
     return 1.0 / (1.0 / sr) == float(sr)
 
 
-def _stft_safe(sr, w, h):
-    """w, h: Fractions (exact values of the floats passed)"""
+def _stft_safe(sr, w, h, num=None):
+    """w, h: Fractions (exact values of the floats passed).  `num == "np32"`: the caller passes numpy float32
+    scalars, whose products with the samplerate may be rounded to 24 bits - exact at power-of-two rates only"""
     if not _sr_roundtrips(sr):
+        return False
+    if num == "np32" and not _pow2(sr):
         return False
     wf, hf = float(w), float(h)
     return _same_cell(w * sr, wf * float(sr)) and _same_cell((w - h) * sr, (wf - hf) * float(sr))
@@ -234,23 +373,87 @@ def _resample_safe(sr, n, target):
     return _same_cell(Fraction(n * target, sr), n * (target * step))
 
 
+# ---------------------------------------------------------------------- how the functions are called
+_REQ = object()
+# Python mirror of the documented signatures `SE.Audio.signatures` (stage `signatures` checks that it *is* that
+# table, and a Tie-1 obligation that the current source's `inspect.signature` is): parameter order for
+# positional calls, and the documented defaults to fill skipped optional parameters with
+DOC_SIGNATURES = {
+    "load_recording": [("recording", _REQ), ("audio_dir", None)],
+    "load_clip": [("clip", _REQ), ("audio_dir", None)],
+    "resample": [("array", _REQ), ("target_samplerate", _REQ), ("window", None), ("dim", "time")],
+    "compute_spectrogram": [("audio", _REQ), ("window_size", _REQ), ("hop_size", _REQ), ("window_type", "hann"),
+                            ("detrend", False), ("padded", True), ("boundary", "zeros")],
+}
+
+
+def _call(name, fn, style, given):
+    """call `fn` with the arguments `given` (documented name -> value): `"mixed"` = required arguments
+    positionally, options by keyword (how the library's own tests call it); `"kw"` = everything by keyword;
+    `"pos"` = everything positionally in the *documented* order, skipped options filled with the documented default"""
+    sig = DOC_SIGNATURES[name]
+    if style == "kw":
+        return fn(**given)
+    if style == "pos":
+        last = max(i for i, (n, _d) in enumerate(sig) if n in given)
+        return fn(*[given[n] if n in given else d for n, d in sig[:last + 1]])
+    req = [given[n] for n, d in sig if d is _REQ]
+    return fn(*req, **{n: v for n, v in given.items() if dict(sig)[n] is not _REQ})
+
+
+def _fn(name):
+    if name == "resample":
+        from soundevent.audio import operations
+        return operations.resample
+    from soundevent import audio
+    return getattr(audio, name)
+
+
+def _spec_given(audio, inp):
+    num = inp.get("num", "float")
+    given = {"audio": audio, "window_size": _num(frac(inp["w"]), num), "hop_size": _num(frac(inp["h"]), num)}
+    given.update(inp.get("opts") or {})
+    return given
+
+
+def _resample_given(array, inp, target):
+    tnum = inp.get("tnum", "int")
+    t = {"int": int(target), "float": float(target), "np64": None, "npint": None, "npint32": None}.get(tnum, int(target))
+    if t is None:
+        import numpy as np
+        t = {"np64": np.float64(target), "npint": np.int64(target), "npint32": np.int32(target)}[tnum]
+    given = {"array": array, "target_samplerate": t}
+    if "window" in inp:
+        w = inp["window"]
+        given["window"] = tuple(w) if isinstance(w, list) else w
+    if inp.get("dim"):
+        given["dim"] = "time"
+    return given
+
+
 # ---------------------------------------------------------------------- implementations
-def _impl_load_clip(inp):
-    from soundevent import data
-    from soundevent.audio import load_clip
-    import soundfile as sf
-    _k, rec = _recording(inp)
+def _load_clip_call(rec, inp):
     rec, kw = _relocated(rec, inp)
-    clip = data.Clip(recording=rec, start_time=float(frac(inp["s"])), end_time=float(frac(inp["e"])))
-    try:
-        arr = load_clip(clip, **kw)
-    except sf.LibsndfileError:
-        return {"raise": "seek"}
+    clip = _clip_of(rec, inp)
+    return _call("load_clip", _fn("load_clip"), inp.get("call", "mixed"), {"clip": clip, **kw}), rec, clip
+
+
+def _clip_out(arr, rec):
     if arr.dims != ("time", "channel") or list(arr.channel.data) != list(range(arr.shape[1])):
         return {"raise": "crash:dims", "trace": f"dims {arr.dims}, channel coordinate {list(arr.channel.data)}"}
     return {"val": {"frames": _codes_out(arr.data), "times": _rats(arr.time.data),
                     "step": rat(float(arr.time.attrs["step"]))},
             "aux": {"rec_sr": rec.samplerate, "channels": int(arr.shape[1])}}
+
+
+def _impl_load_clip(inp):
+    import soundfile as sf
+    _k, rec = _recording(inp)
+    try:
+        arr, rec, _clip = _load_clip_call(rec, inp)
+    except sf.LibsndfileError:
+        return {"raise": "seek"}
+    return _clip_out(arr, rec)
 
 
 def _impl_load_recording(inp):
@@ -270,7 +473,7 @@ def _impl_recording_of(inp):
     from soundevent.audio import load_recording
     k, rec = _recording(inp)
     rec2, kw = _relocated(rec, inp)
-    arr = load_recording(rec2, **kw)
+    arr = _call("load_recording", load_recording, inp.get("call", "mixed"), {"recording": _via(rec2, inp.get("via", "ctor")), **kw})
     if arr.dims != ("time", "channel") or list(arr.channel.data) != list(range(arr.shape[1])):
         return {"raise": "crash:dims", "trace": f"dims {arr.dims}, channel coordinate {list(arr.channel.data)}"}
     return {"val": {"frames": _codes_out(arr.data), "times": _rats(arr.time.data),
@@ -287,62 +490,77 @@ def _spec_out(spec, audio):
 
 
 def _impl_clip_spectrogram(inp):
-    from soundevent import data
-    from soundevent.audio import load_clip, compute_spectrogram
     import soundfile as sf
     _k, rec = _recording(inp)
-    clip = data.Clip(recording=rec, start_time=float(frac(inp["s"])), end_time=float(frac(inp["e"])))
     try:
-        audio = load_clip(clip)
+        audio, _rec, _clip = _load_clip_call(rec, inp)
     except sf.LibsndfileError:
         return {"raise": "seek"}
-    spec = compute_spectrogram(audio, float(frac(inp["w"])), float(frac(inp["h"])))
+    spec = _call("compute_spectrogram", _fn("compute_spectrogram"), inp.get("call", "mixed"), _spec_given(audio, inp))
     return _spec_out(spec, audio)
 
 
-def _synthetic_audio(n, t0, sr, ch, nostep=False):
+def _time_variable(times, sr=None):
+    """the time coordinate of a hand-built audio array (as the library's own tests build them): the harness's own
+    `xr.Variable`, attrs `units` / `standard_name` / `long_name` and - unless `sr` is None - `step = 1/sr`.
+    (Not built with the library's `create_time_dim_from_array`: inputs never come from the code under test.)"""
+    import xarray as xr
+    attrs = {"units": "s", "standard_name": "time", "long_name": "Time since start of recording"}
+    if sr is not None:
+        attrs["step"] = 1 / sr
+    return xr.Variable(dims="time", data=times, attrs=attrs)
+
+
+def _synthetic_audio(n, t0, sr, ch, nostep=False, layout=None):
     """`nostep`: the time coordinate carries no `step` attribute (the code estimates it from the
-    coordinates; generated only where that mean is exact: power-of-two rates, dyadic start)"""
+    coordinates; generated only where that mean is exact: power-of-two rates, dyadic start).
+    `layout`: `"coords-reordered"` (coordinates registered in another order than the dims), `"transposed"`
+    (channel, time), `"mono"` (time only) - the last two for `resample` only"""
     import numpy as np
     import xarray as xr
-    from soundevent.arrays import create_time_dim_from_array
     times = np.array([float(t0 + Fraction(i, sr)) for i in range(n)], dtype=np.float64)
     data = ((np.arange(n * ch).reshape(n, ch) * 37) % 101 - 50) / 64.0
-    tdim = create_time_dim_from_array(times) if nostep else create_time_dim_from_array(times, samplerate=sr)
+    tdim = _time_variable(times, None if nostep else sr)
+    if layout == "mono":
+        return xr.DataArray(data[:, 0], dims=("time",), coords={"time": tdim})
+    if layout == "transposed":
+        return xr.DataArray(data.T.copy(), dims=("channel", "time"), coords={"channel": range(ch), "time": tdim})
+    if layout == "coords-reordered":
+        return xr.DataArray(data, dims=("time", "channel"), coords={"channel": range(ch), "time": tdim})
     return xr.DataArray(data, dims=("time", "channel"), coords={"time": tdim, "channel": range(ch)})
 
 
 def _impl_spectrogram(inp):
     """compute_spectrogram on a synthetic array: `len` samples from `t0` at `sr` Hz"""
-    from soundevent.audio import compute_spectrogram
-    audio = _synthetic_audio(inp["len"], frac(inp["t0"]), inp["sr"], inp.get("ch", 1), inp.get("nostep", False))
-    spec = compute_spectrogram(audio, float(frac(inp["w"])), float(frac(inp["h"])))
+    audio = _synthetic_audio(inp["len"], frac(inp["t0"]), inp["sr"], inp.get("ch", 1), inp.get("nostep", False),
+                             inp.get("layout"))
+    spec = _call("compute_spectrogram", _fn("compute_spectrogram"), inp.get("call", "mixed"), _spec_given(audio, inp))
     return _spec_out(spec, audio)
 
 
-def _impl_clip_resample(inp):
-    from soundevent import data
-    from soundevent.audio import load_clip
-    from soundevent.audio.operations import resample
-    import soundfile as sf
-    _k, rec = _recording(inp)
-    clip = data.Clip(recording=rec, start_time=float(frac(inp["s"])), end_time=float(frac(inp["e"])))
-    try:
-        audio = load_clip(clip)
-    except sf.LibsndfileError:
-        return {"raise": "seek"}
-    out = resample(audio, inp["target"])
+def _resampled_out(out, audio, n):
+    tax = out.get_axis_num("time")
     return {"val": {"coords": _rats(out.time.data), "step": rat(float(out.time.attrs["step"]))},
             "aux": {"t0": rat(float(audio.time.data[0])) if audio.sizes["time"] else None,
-                    "n": int(audio.sizes["time"]), "shape": list(out.shape)}}
+                    "n": n, "shape": [out.shape[tax]], "dims": list(out.dims), "in_dims": list(audio.dims)}}
+
+
+def _impl_clip_resample(inp):
+    import soundfile as sf
+    _k, rec = _recording(inp)
+    try:
+        audio, _rec, _clip = _load_clip_call(rec, inp)
+    except sf.LibsndfileError:
+        return {"raise": "seek"}
+    out = _call("resample", _fn("resample"), inp.get("call", "mixed"), _resample_given(audio, inp, inp["target"]))
+    return _resampled_out(out, audio, int(audio.sizes["time"]))
 
 
 def _impl_resample(inp):
-    from soundevent.audio.operations import resample
-    audio = _synthetic_audio(inp["n"], frac(inp["t0"]), inp["sr"], inp.get("ch", 1), inp.get("nostep", False))
-    out = resample(audio, inp["target"])
-    return {"val": {"coords": _rats(out.time.data), "step": rat(float(out.time.attrs["step"]))},
-            "aux": {"t0": rat(float(audio.time.data[0])), "n": inp["n"], "shape": list(out.shape)}}
+    audio = _synthetic_audio(inp["n"], frac(inp["t0"]), inp["sr"], inp.get("ch", 1), inp.get("nostep", False),
+                             inp.get("layout"))
+    out = _call("resample", _fn("resample"), inp.get("call", "mixed"), _resample_given(audio, inp, inp["target"]))
+    return _resampled_out(out, audio, inp["n"])
 
 
 def _impl_resample_chain(inp):
@@ -392,10 +610,18 @@ def _tm_recording(inp):
 
 def _tm_recording_of(inp):
     # duration as Recording.from_file computes it: (frames / file rate) / expansion, in binary64
-    n = len(inp["file"]["frames"]) if "frames" in inp["file"] else inp["file"]["n"]
+    # (a directly built recording, `"rsr"`: frames / samplerate, as `_recording` stores it)
+    n = _nframes(inp["file"])
+    if "rsr" in inp:
+        return {"file": inp["file"], "sr": inp["rsr"], "duration": rat(n / inp["rsr"])}
     te = frac(inp.get("te", "1"))
     d = (n / inp["fsr"]) / (int(te) if te.denominator == 1 else float(te))
     return {"file": inp["file"], "sr": _sr(inp), "duration": rat(d)}
+
+
+def _tm_spec_opt(inp):
+    o = inp.get("opts") or {}
+    return {**_tm_spec(inp), "padded": bool(o.get("padded", True)), "ext": o.get("boundary", "zeros") is not None}
 
 
 # ---------------------------------------------------------------------- comparison
@@ -422,16 +648,34 @@ def _cmp_raise(io, mo):
     return _m("implementation raises where the model returns an array", f"implementation raises {io['raise']}")
 
 
+def _nd(x):
+    """ "n/d" | "n" | int -> (n, d) without building a Fraction (the coordinates of thousands of arrays are compared)"""
+    if isinstance(x, int):
+        return x, 1
+    i = x.find("/")
+    return (int(x), 1) if i < 0 else (int(x[:i]), int(x[i + 1:]))
+
+
+def _fl(x):
+    """the binary64 nearest to the rational "n/d" (Python's int / int is correctly rounded)"""
+    n, d = _nd(x)
+    return n / d
+
+
 def _cmp_coords(name, impl, model, exact=False):
     if len(impl) != len(model):
         return _m(f"{name} axis: number of coordinates differs from the model", f"{len(impl)} coordinates, model {len(model)}")
     for i, (a, b) in enumerate(zip(impl, model)):
-        fa, fb = frac(a), frac(b)
+        if a == b:
+            continue
         if exact:
-            if fa != fb:
-                return _m(f"{name} axis: coordinate differs from the model (exact mode)", f"{name}[{i}] = {float(fa)!r}, model {b}")
-        elif not tol_eq(fb, float(fa)):
-            return _m(f"{name} axis: coordinate differs from the model (tolerance)", f"{name}[{i}] = {float(fa)!r}, model {float(fb)!r}")
+            (an, ad), (bn, bd) = _nd(a), _nd(b)
+            if an * bd != bn * ad:
+                return _m(f"{name} axis: coordinate differs from the model (exact mode)", f"{name}[{i}] = {_fl(a)!r}, model {b}")
+        else:
+            fa, fb = _fl(a), _fl(b)
+            if not abs(fa - fb) <= 2.0 ** -40 * max(1.0, abs(fb)):       # rat.tol_eq
+                return _m(f"{name} axis: coordinate differs from the model (tolerance)", f"{name}[{i}] = {fa!r}, model {fb!r}")
     return None
 
 
@@ -516,7 +760,7 @@ def _cmp_spec(io, mo):
 
 
 def _compare_clip_spec(inp, io, mo):
-    safe = _clip_safe(inp) and _stft_safe(_sr(inp), frac(inp["w"]), frac(inp["h"]))
+    safe = _clip_safe(inp) and _stft_safe(_sr(inp), frac(inp["w"]), frac(inp["h"]), inp.get("num"))
     if _is_raise(io) or _is_raise(mo):
         if not safe and _is_raise(io) != _is_raise(mo):
             return None
@@ -525,7 +769,7 @@ def _compare_clip_spec(inp, io, mo):
 
 
 def _compare_spec(inp, io, mo):
-    safe = _stft_safe(inp["sr"], frac(inp["w"]), frac(inp["h"]))
+    safe = _stft_safe(inp["sr"], frac(inp["w"]), frac(inp["h"]), inp.get("num"))
     if _is_raise(io) or _is_raise(mo):
         if not safe and _is_raise(io) != _is_raise(mo):
             return None
@@ -634,7 +878,7 @@ def _holds_load_clip(ctx, inp, io):
         return _m("number of frames and of time stamps differ", f"{n} frames, {len(v['times'])} time stamps")
     s, e = frac(inp["s"]), frac(inp["e"])
     safe = _clip_safe(inp)
-    if io["aux"]["rec_sr"] != sr:
+    if io["aux"]["rec_sr"] != sr and "rsr" not in inp:
         ctx.contract("from_file.samplerate", False, inp, io["aux"]["rec_sr"])
     if safe and n != math.floor((e - s) * sr):
         return _m("frame count is not floor(duration x samplerate)", f"{n} frames, floor = {math.floor((e - s) * sr)}")
@@ -652,19 +896,34 @@ def _holds_load_clip(ctx, inp, io):
         return msg
     if not _near(Fraction(1, sr), float(frac(v["step"]))):
         return _m("advertised step of the clip is not 1/samplerate", f"{float(frac(v['step']))!r}, samplerate {sr}")
-    # frame i and its time stamp are those of index off + i of the loaded recording, zero past its end
+    # frame i and its time stamp are those of index off + i of the loaded recording, zero past its end - and the
+    # frames are those the harness wrote into the file (independent of both loaders)
     rdata, rtimes = _recording_data(inp)
-    codes = np.array([[float(frac(x)) if isinstance(x, str) else x for x in row] for row in v["frames"]], dtype=float)
+    codes = np.array([[_fl(x) if isinstance(x, str) else x for x in row] for row in v["frames"]], dtype=float)
     N = rdata.shape[0]
-    for i in range(n):
-        j = off + i
-        want = rdata[j] * 32768.0 if j < N else np.zeros(codes.shape[1])
-        if not np.array_equal(codes[i], want):
-            return _m("frame differs from that frame of load_recording / the zero fill",
-                      f"frame {i} = {v['frames'][i]} differs from "
-                      + (f"frame {j} of load_recording {want.tolist()}" if j < N else "the zero fill past the end of file"))
-        if j < N and not tol_eq(Fraction(float(rtimes[j])), float(frac(v["times"][i]))):
-            return _m("time stamp differs from that of the same frame of load_recording", f"time stamp {i} = {float(frac(v['times'][i]))!r}, load_recording's index {j} has {float(rtimes[j])!r}")
+    fcodes = _FILES[_file_key(inp["file"], inp["fsr"])][1]
+    for what, src, scale in (("load_recording", rdata, 32768.0), ("the file as written", fcodes, 1.0)):
+        M = src.shape[0]
+        want = np.zeros_like(codes)
+        k = max(0, min(n, M - off))
+        if off >= 0 and k > 0:
+            want[:k] = src[off:off + k] * scale
+        if want.shape != codes.shape or not np.array_equal(codes, want):
+            bad = next((i for i in range(n) if want.shape != codes.shape or not np.array_equal(codes[i], want[i])), 0)
+            j = off + bad
+            return _m("frame differs from that frame of load_recording / the zero fill" if src is rdata
+                      else "frame differs from that frame of the file / the zero fill",
+                      f"frame {bad} = {v['frames'][bad]} differs from "
+                      + (f"frame {j} of {what} {want[bad].tolist()}" if j < M else "the zero fill past the end of file"))
+    k = max(0, min(n, N - off))
+    if k > 0:
+        got = np.array([_fl(x) for x in v["times"][:k]])
+        ref = np.asarray(rtimes[off:off + k], dtype=float)
+        badt = np.nonzero(np.abs(got - ref) > 2.0 ** -40 * np.maximum(1.0, np.abs(ref)))[0]
+        if badt.size:
+            i = int(badt[0])
+            return _m("time stamp differs from that of the same frame of load_recording",
+                      f"time stamp {i} = {got[i]!r}, load_recording's index {off + i} has {ref[i]!r}")
     return None
 
 
@@ -677,8 +936,9 @@ def _holds_recording(ctx, inp, io):
     if "aux" in io:
         n = len(v["frames"])
         sr = _sr(inp)
-        ctx.contract("from_file.samplerate", io["aux"]["sr"] == sr, inp, io["aux"])
-        ctx.contract("from_file.duration", abs(frac(io["aux"]["duration"]) * sr - n) < Fraction(1, 2), inp, io["aux"])
+        if "rsr" not in inp:
+            ctx.contract("from_file.samplerate", io["aux"]["sr"] == sr, inp, io["aux"])
+            ctx.contract("from_file.duration", abs(frac(io["aux"]["duration"]) * sr - n) < Fraction(1, 2), inp, io["aux"])
         want = _codes(inp["file"]).tolist()
         if v["frames"] != want:
             return _m("load_recording does not return the frames of the file")
@@ -689,11 +949,12 @@ def _window_fits(inp_sr, w, n):
     return n > 0 and math.floor(w * inp_sr) <= n
 
 
-def _holds_spec(ctx, inp, io):
+def _holds_spec(ctx, inp, io, sr=None):
     if _is_raise(io):
         return None
     v = io["val"]
-    sr = inp["sr"] if "sr" in inp else _sr(inp)
+    if sr is None:
+        sr = inp["sr"] if "sr" in inp else _sr(inp)
     if io["aux"].get("dims") != ["frequency", "time", "channel"]:
         return _m("spectrogram dimensions are not (frequency, time, channel)", f"{io['aux'].get('dims')}")
     sh = io["aux"]["shape"]
@@ -701,13 +962,24 @@ def _holds_spec(ctx, inp, io):
         return _m("spectrogram data shape does not match its own axes", f"shape {sh}")
     if not _window_fits(sr, frac(inp["w"]), v["len"]):
         ctx.tally("spectrogram:window-longer-than-audio (judged like every other window)")
-    return (_axis_ok(ctx, io["aux"]["t0"], v["time"], "spectrogram time")
+    first = io["aux"]["t0"]
+    if (inp.get("opts") or {}).get("boundary", "zeros") is None and v["time"]["coords"]:
+        # no boundary extension: no segment is centred on the source's start; the first centre is the reference
+        # (C15_stft_options_truthful), it cannot precede the source's start nor lie more than a window after it
+        first = v["time"]["coords"][0]
+        if first is not None and io["aux"]["t0"] is not None and not (
+                frac(io["aux"]["t0"]) <= frac(first) <= frac(io["aux"]["t0"]) + frac(inp["w"]) + Fraction(1, sr)):
+            return _m("spectrogram time axis (boundary=None) does not start inside the first window",
+                      f"first {float(frac(first))!r}, source start {float(frac(io['aux']['t0']))!r}")
+    return (_axis_ok(ctx, first, v["time"], "spectrogram time")
             or _axis_ok(ctx, "0", v["freq"], "spectrogram frequency"))
 
 
 def _holds_resampled(ctx, inp, io):
     if _is_raise(io):
         return None
+    if io["aux"].get("dims") != io["aux"].get("in_dims"):
+        return _m("resampled array does not keep the dimensions of its input", f"{io['aux'].get('in_dims')} -> {io['aux'].get('dims')}")
     return _axis_ok(ctx, io["aux"]["t0"], io["val"], "resampled time")
 
 
@@ -776,6 +1048,377 @@ OPS = {
                          compare=_compare_resample_chain, holds=_holds_resample_chain, nontrivial=_nontrivial,
                          mode="tolerance"),
 }
+
+# ---------------------------------------------------------------------- options of compute_spectrogram
+OPS["spectrogram_options"] = Op("spectrogram_options", _impl_spectrogram, to_model=_tm_spec_opt, compare=_compare_spec,
+                                holds=_holds_spec, nontrivial=_nontrivial, mode="tolerance", model_op="spectrogram_opt")
+
+
+# ---------------------------------------------------------------------- histories (harness/history.py, HISTORIES.md)
+# (1) `load_clip_history`: consecutive `load_clip` calls in one process on shared Recording / Clip objects - the same
+#     clip on another recording, another clip of the same recording, a Clip object that is changed and used again
+#     (assignment / model_copy / deepcopy), returned arrays edited by the caller, results re-read after later calls.
+def _h_base(inp):
+    return {k: inp[k] for k in ("file", "fsr", "te", "rsr") if k in inp}
+
+
+def _h_build(inp):
+    _k, rec = _recording(inp)
+    rec2, kw = _relocated(rec, inp)
+    return {"rec": rec2, "clip": _clip_of(rec2, inp), "kw": kw, "base": jkey(_h_base(inp)), "ad": bool(inp.get("ad")),
+            "call": inp.get("call", "mixed")}
+
+
+def _h_call(args):
+    return _call("load_clip", _fn("load_clip"), args["call"], {"clip": args["clip"], **args["kw"]})
+
+
+def _h_canon(inp, args, res):
+    return _clip_out(res, args["rec"])
+
+
+def _h_snapshot(args):
+    c, r = args["clip"], args["rec"]
+    return [rat(c.start_time), rat(c.end_time), str(c.uuid), str(r.uuid), str(r.path), r.samplerate, rat(r.duration),
+            r.channels, rat(r.time_expansion), jkey({k: str(v) for k, v in args["kw"].items()})]
+
+
+def _h_modify(args, inp, how):
+    """the Clip object of the previous step changed to the bounds of this step (Clip is not frozen): nothing it
+    remembered from its earlier use may survive.  Only between clips of the same recording."""
+    import copy
+    if args["base"] != jkey(_h_base(inp)) or args["ad"] != bool(inp.get("ad")):
+        return None
+    clip, s, e = args["clip"], float(frac(inp["s"])), float(frac(inp["e"]))
+    if e < s:
+        return None
+    if how == "assign":
+        if e >= clip.start_time:
+            clip.end_time, clip.start_time = e, s
+        else:
+            clip.start_time, clip.end_time = s, e
+    elif how == "copy_update":
+        clip = clip.model_copy(update={"start_time": s, "end_time": e})
+    elif how == "deep_copy_update":
+        clip = clip.model_copy(update={"start_time": s, "end_time": e}, deep=True)
+    elif how == "deepcopy_assign":
+        clip = copy.deepcopy(clip)
+        clip.end_time = max(e, clip.start_time)
+        clip.start_time, clip.end_time = s, e
+    else:
+        return None
+    rec = clip.recording
+    return {**args, "clip": clip, "rec": rec, "call": inp.get("call", "mixed")}
+
+
+def _poison_array(arr, data=True):
+    """the caller edits what it got back (a returned array is the caller's): its samples, its attrs and the attrs
+    of its coordinates.  Nothing of this may reach an array produced by another call."""
+    did = False
+    if data and arr.size:
+        try:
+            arr.data[...] = 0.4321
+            did = True
+        except Exception:  # noqa: BLE001 - read-only data
+            pass
+    arr.attrs["poisoned"] = "yes"
+    arr.attrs["samplerate"] = 1
+    arr.attrs["units"] = "poisoned"
+    for name in list(arr.coords):
+        c = arr.coords[name]
+        c.attrs["step"] = 12345.678
+        c.attrs["units"] = "poisoned"
+        did = True
+    return did
+
+
+H_REUSE = ("assign", "copy_update", "deep_copy_update", "deepcopy_assign")
+OPS["load_clip_history"] = history.history_op(
+    "load_clip_history", OPS["load_clip"], _h_build, _h_call, _h_canon, snapshot=_h_snapshot, modify=_h_modify,
+    poison=_poison_array)
+
+
+# (2) `session`: several arrays derived from one another in one process (load -> spectrogram -> look at the audio
+#     array again -> resample -> resample -> spectrogram ...).  Every array produced is judged by the Lean model of
+#     the session (`SE.Audio.runSession`: each step is the base operation's model on the value its source had when
+#     it was produced; `C15_session_step`, `C15_session_prefix`, `C15_session_truthful`); after every step every array
+#     handed out earlier is looked at again (values, coordinates, attrs of the array and of its coordinates).
+class _NoSource(Exception):
+    pass
+
+
+def _digest(a):
+    import hashlib
+    import numpy as np
+    a = np.ascontiguousarray(np.asarray(a))
+    return hashlib.blake2b(a.tobytes(), digest_size=8).hexdigest() + ":" + "x".join(map(str, a.shape))
+
+
+def _attrs_snap(d):
+    return {str(k): repr(v) for k, v in sorted(d.items(), key=lambda kv: str(kv[0]))}
+
+
+def _snap(arr):
+    """everything of an array a later call could have changed"""
+    return {"dims": list(arr.dims), "shape": list(arr.shape), "attrs": _attrs_snap(arr.attrs), "data": _digest(arr.data),
+            "coords": {str(n): {"values": _digest(c.values), "attrs": _attrs_snap(c.attrs), "dims": list(c.dims)}
+                       for n, c in arr.coords.items()}}
+
+
+def _snap_diff(a, b, path=""):
+    if isinstance(a, dict) and isinstance(b, dict):
+        for k in sorted(set(a) | set(b)):
+            if a.get(k) != b.get(k):
+                return _snap_diff(a.get(k), b.get(k), f"{path}.{k}" if path else str(k))
+    return f"{path}: {a!r} -> {b!r}"
+
+
+def _axis_out(arr):
+    return {"val": {"coords": _rats(arr.time.data), "step": rat(float(arr.time.attrs["step"]))},
+            "aux": {"n": int(arr.sizes["time"]), "dims": list(arr.dims)}}
+
+
+def _session_base(inp):
+    return {k: inp[k] for k in ("file", "fsr", "te", "rsr", "ad") if k in inp}
+
+
+def _session_step(base, rec, st, live):
+    k = st["k"]
+    if k == "load_clip":
+        arr, rec2, _clip = _load_clip_call(rec, {**base, **{x: st[x] for x in ("s", "e", "num", "via", "call") if x in st}})
+        return _clip_out(arr, rec2), arr
+    if k == "load_recording":
+        rec2, kw = _relocated(rec, base)
+        arr = _call("load_recording", _fn("load_recording"), st.get("call", "mixed"),
+                    {"recording": _via(rec2, st.get("via", "ctor")), **kw})
+        if arr.dims != ("time", "channel") or list(arr.channel.data) != list(range(arr.shape[1])):
+            return {"raise": "crash:dims", "trace": f"dims {arr.dims}, channel coordinate {list(arr.channel.data)}"}, None
+        return {"val": {"frames": _codes_out(arr.data), "times": _rats(arr.time.data),
+                        "step": rat(float(arr.time.attrs["step"]))},
+                "aux": {"sr": rec.samplerate, "duration": rat(rec.duration)}}, arr
+    j = st["src"]
+    if not (0 <= j < len(live)) or live[j]["arr"] is None or live[j]["poisoned"]:
+        raise _NoSource()
+    a = live[j]["arr"]
+    if k == "resample":
+        out = _call("resample", _fn("resample"), st.get("call", "mixed"), _resample_given(a, st, st["target"]))
+        return _resampled_out(out, a, int(a.sizes["time"])), out
+    if k == "spectrogram":
+        spec = _call("compute_spectrogram", _fn("compute_spectrogram"), st.get("call", "mixed"), _spec_given(a, st))
+        return _spec_out(spec, a), spec
+    if k == "slice":
+        out = a.isel(time=slice(st["a"], st["b"]))
+        live[j]["view"] = True
+        o = _axis_out(out)
+        o["aux"]["view"] = True
+        return o, out
+    if k == "look":
+        return _axis_out(a), None
+    if k == "copy":
+        out = a.copy(deep=True)
+        return _axis_out(out), out
+    if k == "poison":
+        # samples are only written where no other array is a view of them (a slice shares its source's buffer)
+        _poison_array(a, data=not live[j].get("view") and not live[j].get("is_view"))
+        live[j]["poisoned"] = True
+        return {"val": "poisoned"}, None
+    raise ValueError(f"unknown session step {k!r}")
+
+
+def _impl_session(inp):
+    import soundfile as sf
+    base = _session_base(inp)
+    _k, rec = _recording(base)
+    live, outs, notes = [], [], []
+    for k, st in enumerate(inp["steps"]):
+        arr = None
+        try:
+            out, arr = _session_step(base, rec, st, live)
+        except sf.LibsndfileError:
+            out = {"raise": "seek"}
+        except _NoSource:
+            out = {"raise": "nosource"}
+        except InfraError:
+            raise
+        except Exception as e:  # noqa: BLE001 - an exception of the real code is an observation of that step
+            out = canon_exc(e)
+            if out["raise"].startswith("crash:"):
+                out["trace"] = "".join(traceback.format_exception_only(type(e), e))[-300:]
+        outs.append(out)
+        # every array handed out earlier must still be what it was when it was produced
+        for j, L in enumerate(live):
+            if L["arr"] is not None and not L["poisoned"]:
+                now = _snap(L["arr"])
+                if now != L["snap"]:
+                    notes.append({"after": k, "array": j, "what": _snap_diff(L["snap"], now)[:300]})
+                    L["snap"] = now
+        live.append({"arr": arr, "snap": _snap(arr) if arr is not None else None, "poisoned": False,
+                     "is_view": st["k"] == "slice"})
+    return {"steps": outs, "notes": notes}
+
+
+def _tm_session(inp):
+    base = _session_base(inp)
+    steps = []
+    for st in inp["steps"]:
+        k = st["k"]
+        if k == "spectrogram":
+            o = st.get("opts") or {}
+            steps.append({"k": k, "src": st["src"], "w": st["w"], "h": st["h"], "padded": bool(o.get("padded", True)),
+                          "ext": o.get("boundary", "zeros") is not None})
+        elif k == "poison":
+            steps.append({"k": "look", "src": st["src"]})      # no model: keeps the indices aligned
+        else:
+            steps.append({x: st[x] for x in ("k", "s", "e", "src", "target", "a", "b") if x in st})
+    return {"file": base["file"], "sr": _sr(base), "duration": _tm_recording_of(base)["duration"], "steps": steps}
+
+
+def _session_infos(inp, io):
+    """per step: what kind of value it produced, its nominal samplerate (advertised step = 1/rate), what was
+    observed (length, first coordinate, whether its spacing is its advertised step) and whether the rational
+    model applies (`safe`: every float product in front of an `int()` / `floor` on the way to this value lies in
+    the exact product's integer cell)"""
+    base = _session_base(inp)
+    infos = []
+    for st, out in zip(inp["steps"], io["steps"]):
+        k = st["k"]
+        info = {"kind": None, "safe": False, "rate": None, "n": None, "first": None, "exact": False, "coords": None,
+                "step": None}
+        src = None
+        if "src" in st:
+            src = infos[st["src"]] if 0 <= st["src"] < len(infos) else None
+            if src is not None and src["kind"] != "audio":
+                src = None
+        if k == "load_clip":
+            ci = {**base, "s": st["s"], "e": st["e"]}
+            info.update(kind="audio", rate=_sr(base), safe=_clip_safe(ci), inp=ci)
+        elif k == "load_recording":
+            sr = _sr(base)
+            d = frac(_tm_recording_of(base)["duration"])
+            info.update(kind="audio", rate=sr, safe=bool(_pow2(sr) or _frac_half_safe(d * sr)))
+        elif src is not None and k == "resample":
+            n, t, r = src["n"], int(st["target"]), src["rate"]
+            local = n is not None and _same_cell(Fraction(n * t, r), n * (float(t) * (1.0 / r)))
+            info.update(kind="audio", rate=t, safe=bool(src["safe"] and local))
+        elif src is not None and k == "spectrogram":
+            info.update(kind="spec", rate=src["rate"],
+                        safe=bool(src["safe"] and _stft_safe(src["rate"], frac(st["w"]), frac(st["h"]), st.get("num"))))
+        elif src is not None and k in ("slice", "look", "copy"):
+            info.update(kind="audio", rate=src["rate"], safe=src["safe"])
+        if info["kind"] == "audio" and not _is_raise(out) and isinstance(out.get("val"), dict):
+            v = out["val"]
+            cs = v["times"] if "times" in v else v["coords"]
+            info.update(n=len(cs), first=cs[0] if cs else None, coords=cs, step=v["step"])
+            if len(cs) >= 2:
+                stp = frac(v["step"])
+                info["exact"] = abs((frac(cs[1]) - frac(cs[0])) - stp) <= abs(stp) * Fraction(1, 10 ** 9)
+            else:
+                info["exact"] = True
+        infos.append(info)
+    return infos
+
+
+def _sm(cls, k, st, detail=""):
+    return _m("session: " + cls, f"step {k} ({st['k']}" + (f" of array {st['src']}" if "src" in st else "") + f"): {detail}")
+
+
+def _strip_cls(msg):
+    a, _, b = msg.partition("|")
+    return a.strip(), b.strip()
+
+
+def _holds_session(ctx, inp, io):
+    if _is_raise(io):
+        return _m("session: the session driver raised", str(io.get("raise")))
+    for n in io.get("notes", []):
+        st = inp["steps"][n["after"]]
+        return _sm("a call changed an array that was handed out earlier", n["after"], st,
+                   f"array {n['array']} (produced by step {n['array']}: {inp['steps'][n['array']]['k']}) changed: {n['what']}")
+    base = _session_base(inp)
+    infos = _session_infos(inp, io)
+    for k, (st, out, info) in enumerate(zip(inp["steps"], io["steps"], infos)):
+        kind = st["k"]
+        msg = None
+        if kind == "load_clip":
+            ci = info["inp"]
+            msg = _holds_load_clip(ctx, ci, out) or _compare_load_clip(ci, out, ctx.model("load_clip", _tm_clip(ci)))
+        elif kind == "load_recording":
+            msg = _holds_recording(ctx, base, out) or _compare_recording(
+                base, out, ctx.model("load_recording", _tm_recording_of(base)))
+        elif _is_raise(out) or "src" not in st:
+            continue
+        else:
+            src = infos[st["src"]]
+            if src["kind"] != "audio" and kind != "poison":
+                continue
+            if kind == "resample":
+                cs = out["val"]["coords"]
+                if out["aux"].get("dims") != out["aux"].get("in_dims"):
+                    msg = _m("resampled array does not keep the dimensions of its input", f"{out['aux'].get('in_dims')} -> {out['aux'].get('dims')}")
+                elif cs and src["first"] is not None and frac(cs[0]) != frac(src["first"]):
+                    msg = _m("resampled time axis does not start at its source's start", f"{float(frac(cs[0]))!r} vs {float(frac(src['first']))!r}")
+                elif src["exact"]:
+                    # hypothesis of C15_session_truthful: the source's spacing is its advertised step (otherwise the
+                    # known finding C15-2, judged by the operation `resample_chain`)
+                    msg = _axis_ok(ctx, src["first"], out["val"], "resampled time")
+                else:
+                    ctx.tally("session:resample of an array whose spacing is not its step (model only, C15-2)")
+            elif kind == "spectrogram":
+                msg = _holds_spec(ctx, st, out, sr=src["rate"])
+                if not msg and src["first"] is not None and out["aux"]["t0"] is not None and frac(out["aux"]["t0"]) != frac(src["first"]):
+                    msg = _m("the audio array no longer starts where it started when it was produced")
+            elif kind in ("look", "copy"):
+                if out["val"]["coords"] != src["coords"] or frac(out["val"]["step"]) != frac(src["step"]):
+                    msg = _m("an array looked at again is not what it was when it was produced",
+                             f"step {float(frac(out['val']['step']))!r} (was {float(frac(src['step']))!r}), "
+                             f"{len(out['val']['coords'])} coordinates (were {len(src['coords'])})")
+            elif kind == "slice":
+                want = src["coords"][st["a"]:st["b"]]
+                if out["val"]["coords"] != want or frac(out["val"]["step"]) != frac(src["step"]):
+                    msg = _m("a slice of an array does not carry that part of its time axis / its step",
+                             f"step {float(frac(out['val']['step']))!r} (source {float(frac(src['step']))!r})")
+        if msg:
+            cls, detail = _strip_cls(msg)
+            return _sm(cls, k, st, detail)
+    return None
+
+
+def _compare_session(inp, io, mo):
+    if _is_raise(io) or _is_raise(mo):
+        return None if _is_raise(io) else _m("session: the model could not evaluate the session", str(mo))
+    infos = _session_infos(inp, io)
+    ms = mo["val"]
+    for k, (st, out, info) in enumerate(zip(inp["steps"], io["steps"], infos)):
+        kind = st["k"]
+        if kind in ("poison", "load_clip", "load_recording") or not info["safe"] or info["kind"] is None \
+                or (_is_raise(out) and out["raise"] == "nosource"):
+            continue    # loads are judged as the base operations (monitor + full model, frames included) by `holds`
+        m = ms[k] if k < len(ms) else {"raise": "missing"}
+        msg = None
+        if _is_raise(out) or _is_raise(m):
+            if _is_raise(out) != _is_raise(m):
+                msg = _cmp_raise(out, m)
+        elif kind == "spectrogram":
+            srcm = ms[st["src"]]["val"]
+            msg = _cmp_spec(out, {"val": {"len": len(srcm["coords"]), "time": m["val"]["time"], "freq": m["val"]["freq"]}})
+        elif kind == "resample":
+            msg = _cmp_axis(out, {"val": m["val"]})
+        else:
+            msg = (_cmp_coords("time", out["val"]["coords"], m["val"]["coords"])
+                   or _cmp_step("time", out["val"]["step"], m["val"]["step"]))
+        if msg:
+            cls, detail = _strip_cls(msg)
+            return _sm(cls, k, st, detail)
+    return None
+
+
+def _nontrivial_session(inp, out):
+    return isinstance(out, dict) and "steps" in out and any(not _is_raise(o) for o in out["steps"])
+
+
+OPS["session"] = Op("session", _impl_session, to_model=_tm_session, compare=_compare_session, holds=_holds_session,
+                    nontrivial=_nontrivial_session, mode="tolerance")
+
 
 # ---------------------------------------------------------------------- generators
 FILE_RATES = [8000, 11025, 16000, 22050, 32000, 38400, 44100, 48000, 96000, 192000, 250000, 384000,
@@ -1102,6 +1745,424 @@ def _resample_chain_cases(ctx, count):
     return out
 
 
+# ---------------------------------------------------------------------- follow-up generators (HISTORIES.md)
+# (samplerate, expansion factor): the recording is built directly with that samplerate, the file header carries
+# floor(samplerate / factor) - factors that do not divide the samplerate (44100/8 -> 5512 Hz, int(5512 x 8) = 44096)
+# and, as controls, factors that do
+RSR = [(44100, "8"), (22050, "20"), (96000, "7"), (48000, "7"), (44100, "10"), (250000, "16"), (8000, "3"), (16384, "3")]
+
+
+def _rsr_pool(rng):
+    pool = []
+    for i, (rsr, te) in enumerate(RSR):
+        fd = _gen_file(rng, [2500, 1000, 2500, 300][i % 4])
+        fd["ch"] = 1 + i % 3
+        pool.append({"file": fd, "fsr": rsr // int(te), "te": te, "rsr": rsr})
+    return pool
+
+
+def _big_pool(rng):
+    """20 000-frame files: clips far from the start (large offsets), long clips, size thresholds"""
+    return [{"file": {"n": 20000, "ch": 1, "a": 4099, "b": rng.randint(0, 65535), "m": 65536}, "fsr": fsr, "te": "1"}
+            for fsr in (8192, 44100)]
+
+
+NUMS = ["int", "np64", "np32", "npint"]
+VIAS = ["validate", "json", "copy", "copy_update", "assign"]
+
+
+def _paths(rng, inp, ctx=None, p=0.3, clip=True):
+    """unusual but legitimate ways of building / passing the same input (the model does not see them)"""
+    if rng.random() >= p:
+        return inp
+    if clip:
+        if rng.random() < 0.5:
+            inp["num"] = rng.choice(NUMS)
+        if rng.random() < 0.5:
+            inp["via"] = rng.choice(VIAS)
+        if rng.random() < 0.3 and not inp.get("ad"):
+            inp["ad"] = rng.choice(["path", True])
+    elif rng.random() < 0.6:
+        inp["num"] = rng.choice(NUMS)
+    if rng.random() < 0.6:
+        inp["call"] = rng.choice(["kw", "pos"])
+    if ctx is not None:
+        for k in ("num", "via", "call"):
+            if k in inp:
+                ctx.tally(f"path:{k}={inp[k]}")
+    return inp
+
+
+def _edge_clip_cases(ctx, pool, count):
+    """tolerance-sized offsets around the two comparisons of load_clip (floor(start x samplerate),
+    floor(duration x samplerate)): start and length a whole number of samples -/+ 2^-10 ... 2^-40 of a sample, at
+    small and large offsets; lengths at the sizes where an implementation could switch strategy"""
+    rng = ctx.rng
+    out = []
+    sizes = [15, 16, 17, 255, 256, 257, 1023, 1024, 1025, 4095, 4096, 4097]
+    for i in range(count):
+        base = rng.choice(pool)
+        sr, n = _sr(base), _nframes(base["file"])
+        d = Fraction(rng.choice([1, -1]), 1 << rng.choice([10, 20, 30, 40]))
+        d2 = Fraction(rng.choice([1, -1, 0]), 1 << rng.choice([10, 20, 30, 40]))
+        k0 = rng.choice([0, 1, rng.randint(0, n - 1), n - rng.randint(1, 40), n // 2])
+        length = rng.choice(sizes) if (i % 3 == 0 and n >= 5000) else rng.randint(1, 60)
+        u0 = max(Fraction(0), k0 + d)
+        u1 = max(u0, k0 + length + d2)
+        if _pow2(sr):
+            s, e = u0 / sr, u1 / sr              # exact in binary64 (k0 < 2^15, 40 fractional bits)
+        else:
+            s, e = Fraction(float(u0 / sr)), Fraction(float(u1 / sr))
+            if e < s:
+                e = s
+        inp = _paths(rng, {**base, "s": rat(s), "e": rat(e)}, ctx, p=0.15)
+        ctx.tally("clip:edge:%s" % ("compared" if _clip_safe(inp) else "float-unsafe (monitor only)"))
+        out.append(inp)
+    return out
+
+
+def _lattice_clip_cases(ctx):
+    """every lattice point of non-dyadic axes: clips starting at every multiple of 0.01 s of a 100 Hz file and of
+    0.001 s of a 1000 Hz file, typed as decimals (0.29, 0.58, ... are not the rationals they look like)"""
+    out = []
+    fd100 = {"n": 300, "ch": 1, "a": 257, "b": 11, "m": 65536}
+    fd1000 = {"n": 1000, "ch": 2, "a": 7, "b": 3, "m": 30000}
+    for k in range(0, 301):
+        s, e = float("%.2f" % (k / 100)), float("%.2f" % ((k + 7) / 100))
+        out.append({"file": fd100, "fsr": 100, "te": "1", "s": rat(s), "e": rat(e)})
+    for k in range(0, 1001, 1 if ctx.thorough() else 3):
+        s, e = float("%.3f" % (k / 1000)), float("%.3f" % ((k + 5) / 1000))
+        out.append({"file": fd1000, "fsr": 1000, "te": "1", "s": rat(s), "e": rat(e)})
+    return out
+
+
+def _edge_recording_cases(rng, count):
+    """stored durations a hair on either side of the trailing-point rule of create_range_dim (half a sample too
+    long -/+ 2^-10 ... 2^-30 of a sample; exact at power-of-two rates), few and many frames"""
+    out = []
+    for _ in range(count):
+        n = rng.choice([1, 2, 5, 64, 300, 1024, 1025])
+        fsr, te = rng.choice([8192, 16384, 65536, 262144]), rng.choice([1, 2])
+        sr = fsr * te
+        x = n + Fraction(1, 2) + Fraction(rng.choice([1, -1]), 1 << rng.choice([10, 20, 30]))
+        out.append({"file": _gen_file(rng, n), "fsr": fsr, "sr": sr, "duration": rat(x / sr)})
+    return out
+
+
+OPT_WINDOWS = ["hann", "hamming", "boxcar"]
+OPT_DETREND = [False, "constant", "linear"]
+OPT_BOUNDARY = ["zeros", "even", "odd", "constant", None]
+
+
+def _opts_product():
+    """pairwise: every (padded, boundary) pair with every window / detrend value at least once"""
+    out = []
+    i = 0
+    for padded in (True, False):
+        for boundary in OPT_BOUNDARY:
+            for j in range(3):
+                out.append({"padded": padded, "boundary": boundary, "window_type": OPT_WINDOWS[(i + j) % 3],
+                            "detrend": OPT_DETREND[j]})
+            i += 1
+    return out
+
+
+def _option_spec_cases(ctx, count):
+    """options x input classes: every combination of `_opts_product` with windows shorter than / as long as / longer
+    than the audio, whole and fractional hops, hop longer than the window; partially given options too"""
+    rng = ctx.rng
+    out = []
+    combos = _opts_product()
+    for i in range(count):
+        sr = rng.choice([8000, 8192, 44100, 1000, 16384, 22050])
+        n = rng.choice([rng.randint(4, 300), 16, 17, 256, 257, 1024, 1025])
+        t0 = Fraction(float(rng.choice([Fraction(0), Fraction(rng.randint(0, 4000), 16)])))
+        cls = i % 4
+        if cls == 0:
+            w, h = _long_window(rng, sr, n)
+        else:
+            w, h = _spec_params(rng, sr, n, grid=(cls == 1))
+        opts = dict(combos[i % len(combos)])
+        if i % 5 == 4:      # only some of the options given
+            for k in rng.sample(sorted(opts), rng.randint(1, 3)):
+                del opts[k]
+        case = {"len": n, "t0": rat(t0), "sr": sr, "ch": rng.choice([1, 2]), "w": rat(w), "h": rat(h), "opts": opts}
+        if i % 7 == 3:
+            case["layout"] = "coords-reordered"
+        _paths(rng, case, ctx, p=0.5, clip=False)
+        if case.get("num") == "np32" and not _pow2(sr):
+            del case["num"]
+        ctx.tally("options:padded=%s boundary=%s" % (opts.get("padded", "default"), opts.get("boundary", "default")))
+        out.append(case)
+    return out
+
+
+def _edge_spec_cases(ctx, count):
+    """window and overlap a whole number of samples -/+ 2^-10 ... 2^-30 of a sample (the two `int()` of
+    compute_spectrogram and scipy's `noverlap >= nperseg`), small and large windows, at power-of-two rates (exact);
+    audio lengths at the size thresholds"""
+    rng = ctx.rng
+    out = []
+    for i in range(count):
+        sr = rng.choice([8192, 16384, 65536, 262144, 4])
+        n = rng.choice([15, 16, 17, 255, 256, 257, 1023, 1024, 1025, 4096, 4097, rng.randint(8, 400)])
+        nps = rng.choice([2, 3, rng.randint(2, min(n, 96)), n - 1, n, n + 1]) if i % 2 else rng.randint(2, max(2, min(n, 2000)))
+        nps = max(2, nps)
+        hop = rng.choice([1, nps // 2 or 1, nps, nps - 1 or 1, rng.randint(1, nps)])
+        dw = Fraction(rng.choice([1, -1, 0]), 1 << rng.choice([10, 20, 30]))
+        dh = Fraction(rng.choice([1, -1, 0]), 1 << rng.choice([10, 20, 30]))
+        w = (nps + dw) / sr
+        h = max(Fraction(1, 1 << 30), hop + dh) / sr
+        t0 = Fraction(rng.choice([0, rng.randint(0, 4000), 10 ** 6]), 16)
+        case = {"len": n, "t0": rat(t0), "sr": sr, "ch": 1, "w": rat(w), "h": rat(h)}
+        _paths(rng, case, ctx, p=0.3, clip=False)
+        out.append(case)
+        ctx.tally("spectrogram:edge")
+    return out
+
+
+def _lattice_spec_cases(ctx):
+    """every hop of 0.0001 .. 0.0100 s (typed as decimals) at 8 kHz and 44.1 kHz, window 0.01 s"""
+    out = []
+    for sr in (8000, 44100):
+        for j in range(1, 101, 1 if ctx.thorough() else 2):
+            out.append({"len": 400, "t0": "0", "sr": sr, "ch": 1, "w": rat(0.01), "h": rat(float("%.4f" % (j / 10000)))})
+    return out
+
+
+def _edge_resample_cases(ctx, count):
+    """sizes at the thresholds, targets given as int / float / numpy scalars, window option, array layouts"""
+    rng = ctx.rng
+    out = []
+    for i in range(count):
+        sr = rng.choice([8000, 8192, 44100, 48000, 22050, 1000])
+        n = rng.choice([15, 16, 17, 255, 256, 257, 1023, 1024, 1025, 4095, 4096, 4097, rng.randint(2, 300)])
+        target = rng.choice([sr // 2, sr * 2, sr, 16000, 11025, max(1, sr // 3), sr - 1, sr + 1])
+        if n * target > 6000 * sr:
+            target = sr // 2
+        t0 = Fraction(float(rng.choice([Fraction(0), Fraction(rng.randint(0, 4000), 16), Fraction(10 ** 6, 16)])))
+        case = {"n": n, "t0": rat(t0), "sr": sr, "ch": rng.choice([1, 2]), "target": int(target)}
+        if rng.random() < 0.6:
+            case["tnum"] = rng.choice(["float", "np64", "npint", "npint32"])
+        if rng.random() < 0.4:
+            case["window"] = rng.choice(["hann", ["tukey", 0.25], ["kaiser", 5.0], None])
+        if rng.random() < 0.3:
+            case["dim"] = True
+        if rng.random() < 0.4:
+            case["layout"] = rng.choice(["transposed", "mono", "coords-reordered"])
+        if rng.random() < 0.5:
+            case["call"] = rng.choice(["kw", "pos"])
+        for k in ("tnum", "layout", "call"):
+            if k in case:
+                ctx.tally(f"resample:path:{k}={case[k]}")
+        out.append(case)
+    return out
+
+
+def _lattice_resample_cases(ctx):
+    """every input length 2 .. 300 for non-dyadic rate pairs (44100 -> 16000; thorough: also 48000 -> 44100, 22050 -> 8000)"""
+    pairs = [(44100, 16000)] + ([(48000, 44100), (22050, 8000)] if ctx.thorough() else [])
+    return [{"n": n, "t0": "0", "sr": sr, "ch": 1, "target": t} for sr, t in pairs for n in range(2, 301)]
+
+
+# ---- histories
+def _clip_history_cases(ctx, pool, count):
+    """base inputs and neighbours for `load_clip_history`"""
+    rng = ctx.rng
+    base_cases = []
+    for _ in range(count):
+        b = rng.choice(pool)
+        _kind, s, e = _gen_clip_times(rng, b, grid=True)
+        base_cases.append({**b, "s": rat(s), "e": rat(e)})
+
+    def variants(x, rng):
+        sr = _sr(x)
+        s, e = frac(x["s"]), frac(x["e"])
+        out = [{**x, "e": rat(e + Fraction(rng.randint(1, 40), sr))},                       # same offset, other length
+               {**x, "s": rat(s + Fraction(rng.randint(1, 9), sr)), "e": rat(e + Fraction(10, sr))},   # shifted
+               {**x, "s": rat(s + Fraction(1, 2 * sr)), "e": rat(e + Fraction(1, 2 * sr))}]  # half a sample later
+        for b in rng.sample(pool, min(3, len(pool))):                                         # same times, other recording
+            out.append({**b, "s": x["s"], "e": x["e"]})
+        out.append({**x, "ad": True})
+        out.append({**x, "call": rng.choice(["kw", "pos"])})
+        return out
+    return history.sequences(rng, base_cases, count, variants=variants, reuse_hows=H_REUSE, poison=True)
+
+
+SESSION_RATIOS = [(1, 2), (1, 3), (2, 1), (1, 4), (3, 2), (2, 3), (1, 1), (3, 1)]
+
+
+def _session_target(rng, rate, n, exact=True):
+    """a target samplerate for an array of `n` samples at `rate` Hz; `exact`: n x target / rate is whole (the
+    resampled array then has the spacing it advertises and may be resampled again truthfully)"""
+    if exact:
+        cands = [rate * p // q for p, q in SESSION_RATIOS if (rate * p) % q == 0 and (n * p) % q == 0 and 2 <= n * p // q <= 3000]
+        if cands:
+            return rng.choice(cands)
+    t = rng.choice(TARGETS + [rate // 2 or 1, rate * 2, max(1, rate // 3)])
+    if n * t > 3000 * rate or n * t < 2 * rate:
+        t = rate
+    return int(t)
+
+
+def _session_spec(rng, rate, n, src, plain=False):
+    w, h = _spec_params(rng, rate, max(2, n), grid=True) if rng.random() < 0.85 else _long_window(rng, rate, max(2, n))
+    st = {"k": "spectrogram", "src": src, "w": rat(w), "h": rat(h)}
+    if not plain and rng.random() < 0.4:
+        st["opts"] = dict(rng.choice(_opts_product()))
+    if rng.random() < 0.4:
+        st["call"] = rng.choice(["kw", "pos"])
+    if rng.random() < 0.25:
+        st["num"] = rng.choice(["np64", "int"] + (["np32"] if _pow2(rate) else []))
+    return st
+
+
+def _session_resample(rng, rate, n, src, exact=True):
+    st = {"k": "resample", "src": src, "target": _session_target(rng, rate, n, exact)}
+    if rng.random() < 0.4:
+        st["tnum"] = rng.choice(["float", "np64", "npint", "npint32"])
+    if rng.random() < 0.3:
+        st["call"] = rng.choice(["kw", "pos"])
+    if rng.random() < 0.2:
+        st["window"] = rng.choice(["hann", ["tukey", 0.25]])
+    return st
+
+
+def _session_cases(ctx, pool, count):
+    """sessions: a load, then arrays derived from earlier ones.  Fixed skeletons for the kinds of history of
+    HISTORIES.md section 1 (an argument re-used after the call, chained resampling, options followed by a plain call,
+    an edited result followed by the same call, slices) plus random derivation graphs.  The generator tracks the
+    expected length / rate of every audio value only to pick sensible parameters; the judge does not use them."""
+    rng = ctx.rng
+    out = []
+    cands = [b for b in pool if 100 <= _nframes(b["file"]) <= 2500]
+    for i in range(count):
+        base = dict(rng.choice(cands))
+        sr, nfile = _sr(base), _nframes(base["file"])
+        if rng.random() < 0.15:
+            base["ad"] = rng.choice([True, "path"])
+        steps = []
+        vals = []      # per step: (rate, n) for audio values, None otherwise
+        if rng.random() < 0.8:
+            length = 12 * rng.randint(2, min(45, max(2, nfile // 12)))
+            u0 = rng.randint(0, max(0, nfile - length // 2)) + rng.choice([Fraction(0), Fraction(0), Fraction(1, 2), Fraction(1, 4)])
+            s, e = u0 / sr, (u0 + length) / sr
+            if not _pow2(sr):
+                k = min(24, sr.bit_length() + 2)
+                s, e = _dyadic(s, k), _dyadic(e, k)
+            st = {"k": "load_clip", "s": rat(s), "e": rat(max(s, e))}
+            _paths(rng, st, None, p=0.3)
+            st.pop("ad", None)
+            steps.append(st)
+            vals.append((sr, max(0, math.floor((max(s, e) - s) * sr))))
+        else:
+            st = {"k": "load_recording"}
+            if rng.random() < 0.3:
+                st["call"] = rng.choice(["kw", "pos"])
+            if rng.random() < 0.3:
+                st["via"] = rng.choice(["validate", "json", "copy"])
+            steps.append(st)
+            vals.append((sr, nfile))
+        skeleton = ["reuse", "chain", "options", "poison", "slice", "random", "random"][i % 7]
+
+        def audio_srcs():
+            return [j for j, v in enumerate(vals) if v is not None and v[1] >= 2 and not steps[j].get("_dead")]
+
+        def add(st, val=None):
+            steps.append(st)
+            vals.append(val)
+            return len(steps) - 1
+
+        def add_resample(src, exact=True):
+            r, n = vals[src]
+            st = _session_resample(rng, r, n, src, exact)
+            return add(st, (st["target"], n * st["target"] // r))
+
+        r0, n0 = vals[0]
+        if n0 < 4:
+            skeleton = "random"
+        if skeleton == "reuse":
+            # the audio array is used again after a spectrogram was computed from it
+            add(_session_spec(rng, r0, n0, 0))
+            add({"k": "look", "src": 0})
+            j = add_resample(0)
+            add(_session_spec(rng, r0, n0, 0))
+            add({"k": "look", "src": 0})
+            add(_session_spec(rng, *vals[j], j))
+            add({"k": "look", "src": j})
+        elif skeleton == "chain":
+            # load -> resample -> resample (-> resample) -> spectrogram, every intermediate array looked at again
+            j1 = add_resample(0, exact=rng.random() < 0.85)
+            j2 = add_resample(j1, exact=True)
+            if rng.random() < 0.5:
+                j2 = add_resample(j2, exact=True)
+            add(_session_spec(rng, *vals[j2], j2))
+            add({"k": "look", "src": j1})
+            add_resample(0)
+        elif skeleton == "options":
+            # a call with non-default options followed by plain calls
+            a = _session_spec(rng, r0, n0, 0)
+            a["opts"] = dict(rng.choice(_opts_product()))
+            add(a)
+            plain = {k: v for k, v in a.items() if k not in ("opts", "call", "num")}
+            add(dict(plain))
+            add(_session_spec(rng, r0, n0, 0, plain=True))
+            add({**_session_resample(rng, r0, n0, 0), "window": rng.choice(["hann", ["kaiser", 5.0]])}, None)
+            last = steps[-1]
+            vals[-1] = (last["target"], n0 * last["target"] // r0)
+            add({k: v for k, v in last.items() if k != "window"}, vals[-1])
+            add(dict(a))
+        elif skeleton == "poison":
+            # the caller edits a result, then the same calls are made again
+            first = dict(steps[0])
+            j = add_resample(0)
+            sp = add(_session_spec(rng, r0, n0, 0))
+            add({"k": "poison", "src": rng.choice([j, sp])})
+            add(dict(steps[j]), vals[j])
+            add(dict(steps[sp]))
+            add({"k": "look", "src": 0})
+            add({"k": "poison", "src": 0})
+            steps[0]["_dead"] = True
+            k2 = add(first, vals[0])
+            add(_session_spec(rng, r0, n0, k2))
+            add({**steps[j], "src": k2}, vals[j])
+        elif skeleton == "slice":
+            a = rng.randint(0, max(0, n0 // 2))
+            b = rng.randint(a + 2, max(a + 2, n0 + 3))
+            j = add({"k": "slice", "src": 0, "a": a, "b": b}, (r0, max(0, min(b, n0) - a)))
+            if vals[j][1] >= 2:
+                add(_session_spec(rng, *vals[j], j))
+                add_resample(j)
+            c = add({"k": "copy", "src": 0}, vals[0])
+            add(_session_spec(rng, r0, n0, c))
+            add({"k": "look", "src": 0})
+        for _ in range(rng.randint(2, 5) if skeleton == "random" else rng.randint(0, 2)):
+            srcs = audio_srcs()
+            if not srcs:
+                break
+            j = rng.choice(srcs)
+            r, n = vals[j]
+            kind = rng.choice(["spectrogram", "spectrogram", "resample", "resample", "look", "slice", "copy"])
+            if kind == "spectrogram":
+                add(_session_spec(rng, r, n, j))
+            elif kind == "resample":
+                add_resample(j, exact=rng.random() < 0.8)
+            elif kind == "slice":
+                a = rng.randint(0, n // 2)
+                b = rng.randint(a + 1, n + 2)
+                add({"k": "slice", "src": j, "a": a, "b": b}, (r, max(0, min(b, n) - a)))
+            elif kind == "copy":
+                add({"k": "copy", "src": j}, vals[j])
+            else:
+                add({"k": "look", "src": j})
+        for st in steps:
+            st.pop("_dead", None)
+            ctx.tally("session:step:" + st["k"])
+        ctx.tally("session:skeleton:" + skeleton)
+        out.append({**base, "steps": steps})
+    return out
+
+
 # ---------------------------------------------------------------------- stages
 def _stage_ties(ctx):
     """Tie 1b: the functions' own arithmetic, traced from the current source, equals the model's plans"""
@@ -1162,17 +2223,114 @@ def _stage_resample(ctx):
     ctx.run_cases(OPS["resample_chain"], _resample_chain_cases(ctx, ctx.budget(200, 1200)))
 
 
+def _lean_str(x):
+    import json
+    return json.dumps(x, ensure_ascii=True)
+
+
+def _stage_signatures(ctx):
+    """positional calls.  (a) the Python mirror `DOC_SIGNATURES` the positional calls are built from is the Lean
+    table `SE.Audio.signatures` (theorems C15_positional_binding, C15_signatures_wellformed); (b) Tie 1: the
+    positional-or-keyword parameters of the four public functions of the *current source*, in order, with the repr
+    of their defaults, are exactly that table (keyword-only parameters have no position: their order is free)."""
+    table = ctx.model("signatures", {})["val"]
+    lean = {e["fn"]: [tuple(p) for p in e["params"]] for e in table}
+    mirror = {fn: [(n, "" if d is _REQ else repr(d)) for n, d in ps] for fn, ps in DOC_SIGNATURES.items()}
+    if lean != mirror:
+        ctx.fail("obligation", "signatures.mirror", detail=f"harness mirror of SE.Audio.signatures is out of date: {mirror} vs {lean}")
+    rows = []
+    for e in table:
+        fn = e["fn"]
+        try:
+            sig = inspect.signature(_fn(fn))
+            ps = [(p.name, "" if p.default is inspect.Parameter.empty else repr(p.default)) for p in sig.parameters.values()
+                  if p.kind in (inspect.Parameter.POSITIONAL_ONLY, inspect.Parameter.POSITIONAL_OR_KEYWORD)]
+        except Exception as ex:  # noqa: BLE001 - the function is gone / not introspectable: the tie is not re-established
+            ps = [("<unavailable: %s>" % type(ex).__name__, "")]
+        rows.append("(%s, [%s])" % (_lean_str(fn), ", ".join("(%s, %s)" % (_lean_str(n), _lean_str(d)) for n, d in ps)))
+    ctx.obligation("signatures", "example : SE.Audio.signatures = [\n  " + ",\n  ".join(rows) + "] := by decide",
+                   meta={"op": "positional calls"})
+    ctx.tally("tie1:signatures of 4 public functions")
+
+
+def _stage_paths(ctx):
+    """tolerance-sized offsets, size thresholds, lattice sweeps, recordings whose expansion factor does not divide
+    the samplerate, options x input classes, construction paths (HISTORIES.md sections 2-4)"""
+    rng = ctx.rng
+    pool = getattr(ctx, "c15_pool", None) or _file_pool(rng, 10)
+    rsr = _rsr_pool(rng)
+    big = _big_pool(rng)
+    ctx.c15_rsr, ctx.c15_big = rsr, big
+    # expansion factors that do not divide the samplerate: clips away from 0 (grid and free), recordings, pipelines
+    for b in rsr:
+        ctx.tally("clip:rsr=%d te=%s (header %d Hz)" % (b["rsr"], b["te"], b["fsr"]))
+    ctx.run_cases(OPS["load_clip"], [_paths(rng, c, ctx) for c in _clip_cases(ctx, rsr, ctx.budget(300, 2000), grid=True)])
+    ctx.run_cases(OPS["load_clip"], _clip_cases(ctx, rsr, ctx.budget(150, 1000), grid=False))
+    ctx.run_cases(OPS["recording_of_file"], [dict(b) for b in rsr] + [dict(b, ad="path", call="pos") for b in rsr[:3]]
+                  + [dict(b, via=v, call=c) for b, v, c in zip(pool, VIAS[:3] * 4, ["kw", "pos", "mixed"] * 4)])
+    ctx.run_cases(OPS["clip_spectrogram"], [_paths(rng, c, ctx) for c in _clip_spec_cases(ctx, rsr, ctx.budget(60, 400), grid=True)])
+    ctx.run_cases(OPS["clip_resample"], [_paths(rng, c, ctx) for c in _clip_resample_cases(ctx, rsr, ctx.budget(60, 400), grid=True)])
+    # construction paths on the ordinary pool
+    ctx.run_cases(OPS["load_clip"], [_paths(rng, c, ctx, p=1.0) for c in _clip_cases(ctx, pool, ctx.budget(250, 1500), grid=True)])
+    ctx.run_cases(OPS["clip_spectrogram"], [_paths(rng, c, ctx, p=1.0) for c in _clip_spec_cases(ctx, pool, ctx.budget(80, 500), grid=True)])
+    ctx.run_cases(OPS["clip_resample"], [_paths(rng, {**c, "tnum": rng.choice(["float", "np64", "npint", "npint32"])}, ctx, p=1.0)
+                                         for c in _clip_resample_cases(ctx, pool, ctx.budget(80, 500), grid=True)])
+    # tolerance-sized offsets and size thresholds
+    ctx.run_cases(OPS["load_clip"], _edge_clip_cases(ctx, pool + big + big, ctx.budget(300, 2000)))
+    ctx.run_cases(OPS["load_recording"], _edge_recording_cases(rng, ctx.budget(40, 300)))
+    ctx.run_cases(OPS["spectrogram"], _edge_spec_cases(ctx, ctx.budget(150, 1000)))
+    ctx.run_cases(OPS["resample"], _edge_resample_cases(ctx, ctx.budget(150, 1000)))
+    # every lattice point of non-dyadic axes
+    lc, ls, lr = _lattice_clip_cases(ctx), _lattice_spec_cases(ctx), _lattice_resample_cases(ctx)
+    ctx.run_cases(OPS["load_clip"], lc)
+    ctx.run_cases(OPS["spectrogram"], ls)
+    ctx.run_cases(OPS["resample"], lr)
+    ctx.exhaustive["lattice sweeps"] = ("clips starting at every multiple of 0.01 s (100 Hz file) and of 0.001 s (1000 Hz file%s): %d; "
+                                        "every hop 0.0001 .. 0.0100 s%s at 8 kHz and 44.1 kHz: %d; every input length 2 .. 300 "
+                                        "for 44100 -> 16000%s: %d"
+                                        % ("" if ctx.thorough() else ", every third", len(lc),
+                                           "" if ctx.thorough() else " (every second)", len(ls),
+                                           ", 48000 -> 44100, 22050 -> 8000" if ctx.thorough() else "", len(lr)))
+    # options x input classes
+    ctx.run_cases(OPS["spectrogram_options"], _option_spec_cases(ctx, ctx.budget(240, 1500)))
+
+
+def _stage_histories(ctx):
+    """consecutive calls in one process (HISTORIES.md section 1)"""
+    rng = ctx.rng
+    pool = getattr(ctx, "c15_pool", None) or _file_pool(rng, 10)
+    rsr = getattr(ctx, "c15_rsr", None) or _rsr_pool(rng)
+    hs = _clip_history_cases(ctx, [b for b in pool + rsr[:3] if _nframes(b["file"]) >= 7], ctx.budget(90, 700))
+    for h in hs:
+        for st in h["seq"]:
+            ctx.tally("history:" + (st.get("reuse") or "fresh") + ("+poison" if st.get("poison") else ""))
+    ctx.run_cases(OPS["load_clip_history"], hs)
+    ctx.run_cases(OPS["session"], _session_cases(ctx, pool + rsr, ctx.budget(170, 1400)))
+
+
+def _timed(ctx, name, fn, *args):
+    import time
+    t = time.time()
+    try:
+        return ctx.stage(name, fn, *args)
+    finally:
+        ctx.note("stage `%s`: %.1f s" % (name, time.time() - t))
+
+
 def run(ctx):
     try:
-        ctx.stage("corpus", ctx.run_corpus, OPS)
-        ctx.stage("assumptions", _assumptions, ctx)
-        ctx.stage("symbolic ties", _stage_ties, ctx)
-        ctx.stage("clips", _stage_clips, ctx)
-        ctx.stage("recordings", _stage_recordings, ctx)
-        ctx.stage("spectrograms", _stage_spectrograms, ctx)
-        ctx.stage("resample", _stage_resample, ctx)
+        _timed(ctx, "corpus", ctx.run_corpus, OPS)
+        _timed(ctx, "assumptions", _assumptions, ctx)
+        _timed(ctx, "signatures", _stage_signatures, ctx)
+        _timed(ctx, "symbolic ties", _stage_ties, ctx)
+        _timed(ctx, "clips", _stage_clips, ctx)
+        _timed(ctx, "recordings", _stage_recordings, ctx)
+        _timed(ctx, "spectrograms", _stage_spectrograms, ctx)
+        _timed(ctx, "resample", _stage_resample, ctx)
+        _timed(ctx, "paths and boundaries", _stage_paths, ctx)
+        _timed(ctx, "histories", _stage_histories, ctx)
         from .. import c15_sym
-        ctx.stage("discharge", ctx.discharge, c15_sym.IMPORTS)
+        _timed(ctx, "discharge", ctx.discharge, c15_sym.IMPORTS)
     finally:
         if not getattr(ctx, "c15_keep", False):
             _cleanup()
@@ -1186,5 +2344,7 @@ def search(ctx, failures):
         ctx.stage("search:recordings", _stage_recordings, ctx)
         ctx.stage("search:spectrograms", _stage_spectrograms, ctx)
         ctx.stage("search:resample", _stage_resample, ctx)
+        ctx.stage("search:paths and boundaries", _stage_paths, ctx)
+        ctx.stage("search:histories", _stage_histories, ctx)
     finally:
         _cleanup()
